@@ -263,15 +263,18 @@ def judge(rep, items, tag, pids, workers=6, want_m=True):
     groups = {}
     for scn, tr in items:
         groups.setdefault((tr["n"], tr["nl"]), []).append((scn, tr))
+    # one TLC run per (n, nl) and per chunk of at most CHUNK traces (JsonDeserialize reads the whole file at once)
+    CHUNK = 2000
+    groups = {(k[0], k[1], c): lst[c * CHUNK:(c + 1) * CHUNK] for k, lst in groups.items() for c in range((len(lst) + CHUNK - 1) // CHUNK)}
     tmpl = open(os.path.join(H.CFG, "OPFSupTrace.tmpl.cfg")).read()
     d = H.subdir("sup-" + tag)
 
     def one(key):
-        (n, nl), lst = key, groups[key]
+        (n, nl, ch), lst = key, groups[key]
         clean = [{k: v for k, v in tr.items() if not k.startswith("_")} for _, tr in lst]
-        path = H.write_json(os.path.join(d, "tr-%d-%d.json" % (n, nl)), clean)
+        path = H.write_json(os.path.join(d, "tr-%d-%d-%d.json" % (n, nl, ch)), clean)
         cfg = tmpl.replace("@N@", str(n)).replace("@NL@", str(nl))
-        res = H.run_tlc("OPFSupTrace", cfg, workers=1, env={"TRACE_FILE": path}, timeout=1800, heap="3g", tag="%s-%d-%d" % (tag, n, nl))
+        res = H.run_tlc("OPFSupTrace", cfg, workers=1, env={"TRACE_FILE": path}, timeout=1800, heap="3g", tag="%s-%d-%d-%d" % (tag, n, nl, ch))
         return key, res
 
     out = {"p_judged": 0, "m_ok": 0, "m_bad": 0, "tiefree": 0, "undecided": 0, "violating": 0}
